@@ -12,6 +12,15 @@ var props = map[string]propCfg{
 	"C18": defCfg(),
 }
 
+const chainRule = "plans are drawn by rapid from one seed per worker process: 1-3 nodes, knobs (utxo / block / ext-utxo cache sizes, slide window, nofee, map-order seed) and up to 24 (quick) / 40+ (thorough) steps of the listed operation mix with selectors resolved against live state; distinct = distinct event-log digests (every operation, result, block / tx id); "
+
 var rules = map[string]string{
-	"C01": "seeded plans (rapid) of tx / kv-contract tx / mine / deliver / walk / reopen / clock steps on 1-3 real nodes with randomised cache sizes, map orders and deferred background recovery; non-trivial = a run in which at least one walk undid a block and a fresh-replay comparison ran; distinct = distinct event-log digests among non-trivial runs",
+	"C01": chainRule + "non-trivial = at least one walk undid a block and a fresh-replay comparison ran",
+	"C02": chainRule + "non-trivial = more than one transaction admitted and at least one block with transactions mined",
+	"C03": chainRule + "non-trivial = at least one refusal and more than one admission were judged by the admission oracle",
+	"C04": chainRule + "non-trivial = at least one main-chain switch or truncation happened",
+	"C05": chainRule + "non-trivial = at least one failed operation was checked for traces and more than three live-vs-reopened comparisons ran",
+	"C13": chainRule + "non-trivial = a block with pool transactions was mined and replayed on a fresh node",
+	"C17": chainRule + "non-trivial = a walk failed (refused at the irreversible height or otherwise) or undid a block",
+	"C18": chainRule + "non-trivial = more than two snapshot comparisons below the tip ran",
 }
